@@ -31,7 +31,10 @@ def make_strategy(spec, rng):
         st = detsched.PreemptStrategy(
             {int(a): b for a, b in spec.get("preempts", [])},
             {int(a): b for a, b in spec.get("blocks", [])},
+            yield_in_call=bool(spec.get("yic")),
         )
+    elif k == "relyield":
+        st = detsched.ReleaseYieldStrategy(rng, spec.get("q", 0.3), spec.get("horizon", 600))
     elif k == "nonpreemptive":
         st = detsched.Strategy()
     else:
